@@ -215,6 +215,9 @@ def c13_nextwid(u1: int, u2: int, u3: int, u4: int, m: int, np: int) -> bool:
     from circus.watcher import Watcher
 
     class P(object):
+        stopping = False
+        started = 0
+
         def __init__(self, wid):
             self.wid = wid
     used = [u1, u2, u3, u4][:m]
